@@ -631,6 +631,30 @@ class Gen:
                 self.locals[-1]["v%d" % self.nlocal] = (BOOL, True)
                 return N("prog", t, (stmts + self.tail(t, "block", 0),))
             return N("prog", t, (stmts + [N("return", t, (res,))],))
+        if kind == "list-build":
+            # a list-valued local starts as a CONSTANT list and receives a non-constant element by subscript assignment; the
+            # result depends on that element only (everything else in the program is constant)
+            k = rng.randint(1, 3)
+            p = self.fresh()
+            self.locals[-1][p] = (SLIST, False)
+            stmts = [N("let", VOID, (N("listlit", SLIST, ([self.lit(STR) for _ in range(k)],)),), v=(p, SLIST, False, False))]
+            i = rng.randrange(k)
+            dyn = N("prop", STR, (self.obj_expr(self.max_depth),), v=rng.choice(VF_PROPS[STR]))
+            stmts.append(N("setelem", VOID, (N("lit", INT, v=(i, str(i)), const=True), dyn), v=p))
+            if rng.random() < 0.3 and k > 1:
+                j = rng.choice([x for x in range(k) if x != i])
+                stmts.append(N("setelem", VOID, (N("lit", INT, v=(j, str(j)), const=True), self.lit(STR)), v=p))
+            pl = N("local", SLIST, v=p)
+            at = lambda n: N("index", STR, (pl, N("lit", INT, v=(n, str(n)), const=True)))
+            if t == SLIST:
+                res = pl
+            elif t == STR:
+                res = at(i) if k == 1 else N("bin", STR, (at(i), at((i + 1) % k)), v="+")
+            elif t == BOOL:
+                res = mk_cmp("==", at(i), self.lit(STR))
+            else:
+                return N("prog", t, (stmts + self.tail(t, "block", 0),))
+            return N("prog", t, (stmts + [N("return", t, (res,))],))
         stmts = self.prelude()
         stmts += self.tail(t, kind, 0)
         return N("prog", t, (stmts,))
@@ -677,6 +701,12 @@ class Gen:
                 if not cands:
                     continue
                 n, lt = rng.choice(cands)
+                if lt == SLIST and self.profile == "dynamic" and rng.random() < 0.5:
+                    # element assignment on a list-valued local (a copy: the source list is not touched); out of range = undefined
+                    i = rng.choice((0, 0, 1, 2))
+                    out.append(N("setelem", VOID, (N("lit", INT, v=(i, str(i)), const=True), self.expr(STR, 2)), v=n))
+                    self.feat("list-element-assign")
+                    continue
                 rhs = self.expr(lt, 2) if lt != PTR else self.obj_expr(2)
                 if lt == SLIST and rhs.k == "listlit" and not rhs.a[0]:
                     continue
@@ -1166,6 +1196,8 @@ def pr_stmts(stmts, rng, ind):
             out.append("%s%s %s%s = %s;" % (pad, "const" if const else "let", name, (": " + ANNOT[lt]) if annotated else "", pr(s.a[0], rng)))
         elif k == "assign":
             out.append("%s%s = %s;" % (pad, s.v, pr(s.a[0], rng)))
+        elif k == "setelem":
+            out.append("%s%s[%s] = %s;" % (pad, s.v, pr(s.a[0], rng), pr(s.a[1], rng)))
         elif k == "exprstmt":
             out.append("%s%s;" % (pad, pr(s.a[0], rng)))
         elif k == "return":
@@ -1472,6 +1504,15 @@ class Interp:
             return None
         if k == "assign":
             self.set_local(s.v, self.ev(s.a[0]))
+            return None
+        if k == "setelem":
+            v = self.ev(s.a[1])
+            i = self.ev(s.a[0])
+            l = list(self.get_local(s.v))
+            if not (0 <= i < len(l)):
+                raise Undefined("subscript out of range")
+            l[i] = v
+            self.set_local(s.v, l)
             return None
         if k == "exprstmt":
             self.completion = self.ev(s.a[0])
